@@ -183,6 +183,7 @@ class Observer:
     def __init__(self):
         self.records = []     # dict(pass, fn, before: Snap, after: Snap, changed)
         self.n_invocations = {}
+        self.context = ("?", "?")
         self._saved = {}
 
     def __enter__(self):
@@ -210,7 +211,7 @@ class Observer:
             after = Snap(fn, names=before.names)
             obs.n_invocations[name] = obs.n_invocations.get(name, 0) + 1
             if after.blocks != before.blocks:
-                obs.records.append({"pass": name, "fn": before.fname, "before": before, "after": after})
+                obs.records.append({"pass": name, "fn": before.fname, "before": before, "after": after, "context": obs.context})
             return r
         return run_pass
 
@@ -220,10 +221,12 @@ def key_of(rec):
 
 
 COQ_IMPORTS = "From Verif Require Import C14C.CopySem C14C.CopyCheck.\nOpen Scope string_scope.\n"
+MODEL_FILES = ["C14C/CopySem.v", "C14C/CopyCheck.v"]
+PROOF_FILES = ["C14C/CopySound1.v", "C14C/CopySound2.v", "C14C/CopySound3.v", "C14C/CopySound4.v", "C14C/CopySound.v", "C14C/PropsCopy.v"]
 
 
 def evaluate(recs, name="c14c", rounds=8):
-    """run check_func on every record; returns list of (accepted, certs_ok, n_changed)"""
+    """run check_func on every record; returns list of (accepted, certs_ok, blocks_ok)"""
     if not recs:
         return []
     exprs = []
@@ -236,3 +239,148 @@ def evaluate(recs, name="c14c", rounds=8):
     shard = max(1, math.ceil(len(exprs) / 3))
     outs = coqrun.eval_zlists(COQ_IMPORTS, exprs, name, shard=shard, timeout=300)
     return [tuple(o) for o in outs]
+
+
+def changes(rec):
+    """[(block, index, before instruction, after instruction)] or None when the block structure changed"""
+    b, a = rec["before"].blocks, rec["after"].blocks
+    if len(b) != len(a) or any(len(x) != len(y) for x, y in zip(b, a)):
+        return None
+    return [(i, j, x, y) for i, (bx, by) in enumerate(zip(b, a)) for j, (x, y) in enumerate(zip(bx, by)) if x != y]
+
+
+COPY_OPS = ("mcopy", "calldatacopy", "codecopy", "returndatacopy", "dloadbytes")
+
+
+def domain(rec):
+    """None if the invocation is in the domain of check_func (every change is mcopy -> nop / mcopy -> copy), else the reason"""
+    ch = changes(rec)
+    if ch is None:
+        return "block structure changed"
+    for _, _, x, y in ch:
+        if x[0] == "mcopy" and (y[0] == "nop" or y[0] in COPY_OPS):
+            continue
+        if x[0] in ("mstore", "mload") or y[0] in ("mstore", "mload"):
+            return "load-store pair elision (mload/mstore rewritten)"
+        return f"rewrite {x[0]} -> {y[0]}"
+    return None
+
+
+def fmt_inst(ins, names):
+    inv = {v: k for k, v in names["var"].items()}
+    op, ops, outs, *_ = ins
+    o = ", ".join(str(v) if k == "lit" else (inv.get(v, f"%{v}") if k == "var" else f"@{v}") for k, v in reversed(ops))
+    return (", ".join(inv.get(x, str(x)) for x in outs) + " = " if outs else "") + f"{op} {o}"
+
+
+def compile_corpus(progs, levels, obs):
+    import warnings
+    from vlib.configs import Config, compile_src
+    nfail = 0
+    with warnings.catch_warnings():
+        warnings.simplefilter("ignore")
+        for c in progs:
+            for lvl in levels:
+                obs.context = (c["name"], lvl)
+                try:
+                    compile_src(c["src"], Config(True, lvl, "cancun"), formats=("bytecode",))
+                except Exception:  # noqa
+                    nfail += 1
+    return nfail
+
+
+def _build(ctx):
+    ctx.coq_build_cached(MODEL_FILES, timeout=300)
+    return ctx.coq_build_cached(PROOF_FILES, deps=MODEL_FILES, timeout=600)
+
+
+def prebuild(ctx):
+    _build(ctx)
+
+
+def part_copy_passes(ctx):
+    import time
+    from vlib import c14_pass_corpus as PC
+    from vlib.coqrun import COQ
+    t0 = time.time()
+    b = _build(ctx)
+    quick = ctx.tier == "quick"
+    rnd = ctx.rng("c14c")
+    progs = PC.select(ctx.tier, rnd)
+    levels = ["gas"] if quick else ["gas", "codesize", "O3"]
+    with Observer() as obs:
+        nfail = compile_corpus(progs, levels, obs)
+    t1 = time.time()
+    seen, recs = set(), []
+    for r in obs.records:
+        k = key_of(r)
+        if k not in seen:
+            seen.add(k)
+            recs.append(r)
+    stats = {"invocations": dict(obs.n_invocations), "changed": {}, "distinct_changed": {}, "verdicts": {}, "compile_failures": nfail,
+             "programs": len(progs), "levels": levels, "unsupported_reasons": {}}
+    for r in obs.records:
+        stats["changed"][r["pass"]] = stats["changed"].get(r["pass"], 0) + 1
+    for r in recs:
+        stats["distinct_changed"][r["pass"]] = stats["distinct_changed"].get(r["pass"], 0) + 1
+    todo, verdict = [], {}
+    for i, r in enumerate(recs):
+        why = domain(r) if r["pass"] == "MemoryCopyElisionPass" else "invoke copy forwarding (validated by the differential only)"
+        if why is None:
+            todo.append(i)
+        else:
+            verdict[i] = "unsupported"
+            stats["unsupported_reasons"][why] = stats["unsupported_reasons"].get(why, 0) + 1
+    if todo and (COQ / "C14C" / "CopyCheck.vo").exists():
+        try:
+            outs = evaluate([recs[i] for i in todo])
+            for i, o in zip(todo, outs):
+                verdict[i] = "accepted" if o[0] == 1 else "rejected"
+                recs[i]["why"] = {"certs_ok": o[1], "blocks_ok": o[2]}
+        except RuntimeError as e:
+            ctx.violation("correspondence-broken", "check_func could not be evaluated on the exported invocations", {"error": str(e)[-1500:]})
+    t2 = time.time()
+    entries = {c["name"]: c for c in progs}
+    searched, reported = {}, 0
+    for i, r in enumerate(recs):
+        v = verdict.get(i, "not-evaluated")
+        d = stats["verdicts"].setdefault(r["pass"], {})
+        d[v] = d.get(v, 0) + 1
+        if v != "rejected":
+            continue
+        prog, lvl = r["context"]
+        if (prog, lvl) not in searched:
+            try:
+                from vlib.c14m_part import search
+                searched[(prog, lvl)] = search(entries[prog], lvl, r["pass"], ctx.seed, ctx.tier)
+            except Exception as e:  # noqa
+                searched[(prog, lvl)] = None
+                ctx.log(f"  c14c search failed for {prog}/{lvl}: {type(e).__name__}: {e}")
+        s = searched[(prog, lvl)]
+        ch = changes(r) or []
+        detail = {"pass": r["pass"], "program": prog, "config": f"venom-{lvl}-cancun", "function": r["fn"], "theorem": "copyfwd_check_sound",
+                  "checker": r.get("why"), "changes": [{"block": bi, "index": j, "before": fmt_inst(x, r["before"].names), "after": fmt_inst(y, r["before"].names)}
+                                                        for bi, j, x, y in ch[:12]],
+                  "function_before": r["before"].text[:6000]}
+        if reported >= 3:
+            continue
+        reported += 1
+        if s is not None:
+            ctx.violation("failing-input", f"{r['pass']} makes a rewrite that check_func rejects and the compiled contract {prog} ({lvl}) behaves "
+                          "differently from the reference" + (" (localised: equal to the reference with the pass skipped)" if s["localised"] else ""),
+                          dict(detail, source=entries[prog]["src"], call=s["call"], difference=s["diff"], localised_to_pass=s["localised"],
+                               expected="same status / return data / logs / storage as legacy -O none"), key=f"C14C:{r['pass']}:{prog}")
+        else:
+            ctx.violation("theorem-broken", f"copyfwd_check_sound does not apply: {r['pass']} on {r['fn']} of {prog} ({lvl}) removes or redirects a "
+                          "copy that no valid copy fact justifies; no-failing-input-found", detail, key=f"C14C:reject:{r['pass']}:{prog}")
+    if not b["ok"] and not reported:
+        ctx.violation("theorem-broken", f"{b.get('failed_lemma')} in {b['file']}", {"theorem": b.get("failed_lemma"), "file": b["file"],
+                                                                                     "coq_output": b["out"][-1500:]})
+    stats["seconds"] = {"build+compile": round(t1 - t0, 1), "check_func": round(t2 - t1, 1), "total": round(time.time() - t0, 1)}
+    ctx.corr["copy_passes"] = stats
+    acc = [r for i, r in enumerate(recs) if verdict.get(i) == "accepted"]
+    if acc:
+        ch = changes(acc[0])
+        ctx.samples.append({"accepted": acc[0]["pass"], "program": acc[0]["context"][0], "function": acc[0]["fn"],
+                            "changes": [{"before": fmt_inst(x, acc[0]["before"].names), "after": fmt_inst(y, acc[0]["before"].names)} for _, _, x, y in ch[:3]]})
+    return len(recs)
